@@ -150,27 +150,33 @@ def target_dir():
 
 
 def build_harness(release=False):
-    """cargo-build qvh against REPO's working tree; returns (ok, binary path, log)."""
+    """cargo-build qvh against REPO's working tree; returns (ok, binary path, log).
+    The manifest is generated per repository path under .cache/ (concurrent runs against
+    different worktrees must not share a mutable Cargo.toml); sources stay in harness/src."""
     hd = harness_dir()
-    with Lock("cargo"):
+    tag = "main" if REPO == "/repo" else hashlib.sha1(REPO.encode()).hexdigest()[:8]
+    md = os.path.join(CACHE, "harness-" + tag)
+    with Lock("cargo-" + tag):
+        os.makedirs(os.path.join(md, ".cargo"), exist_ok=True)
         tmpl = open(os.path.join(hd, "Cargo.toml.in")).read().replace("@REPO@", REPO)
-        ct = os.path.join(hd, "Cargo.toml")
+        tmpl += '\n[[bin]]\nname = "qvh"\npath = "%s"\n' % os.path.join(hd, "src", "main.rs")
+        ct = os.path.join(md, "Cargo.toml")
         if not os.path.exists(ct) or open(ct).read() != tmpl:
             open(ct, "w").write(tmpl)
-        lock_src = os.path.join(hd, "Cargo.lock.base")
+        cfgp = os.path.join(md, ".cargo", "config.toml")
+        if not os.path.exists(cfgp):
+            open(cfgp, "w").write("[net]\noffline = true\n")
         # Cargo.lock: start from the repository's lock file so that the same crate versions are used
-        cl = os.path.join(hd, "Cargo.lock")
+        cl = os.path.join(md, "Cargo.lock")
         if not os.path.exists(cl):
-            src = lock_src if os.path.exists(lock_src) else os.path.join(REPO, "Cargo.lock")
-            shutil.copy(src, cl)
+            shutil.copy(os.path.join(REPO, "Cargo.lock"), cl)
         env = {"CARGO_TARGET_DIR": target_dir(), "RUSTFLAGS": RUSTFLAGS,
                "CARGO_NET_OFFLINE": "true"}
         cmd = ["cargo", "build", "--offline", "--quiet"] + (["--release"] if release else [])
-        rc, out = sh(cmd, cwd=hd, env=env, timeout=1800)
-        if rc != 0:
-            # lock file may be stale relative to the repository: retry from the repo's lock
+        rc, out = sh(cmd, cwd=md, env=env, timeout=1800)
+        if rc != 0 and "lock file" in out:
             shutil.copy(os.path.join(REPO, "Cargo.lock"), cl)
-            rc, out = sh(cmd, cwd=hd, env=env, timeout=1800)
+            rc, out = sh(cmd, cwd=md, env=env, timeout=1800)
     binp = os.path.join(target_dir(), "release" if release else "debug", "qvh")
     return rc == 0, binp, out
 
